@@ -20,6 +20,12 @@ var initOnce sync.Once
 // InitRules registers the embedded rule checkers once.
 func InitRules() {
 	initOnce.Do(func() {
+		// the analyzer package may already have registered the embedded rules in its own init
+		for _, info := range linter.GetCheckersInfo() {
+			if info.EmbeddedRuleguard {
+				return
+			}
+		}
 		if err := checkers.InitEmbeddedRules(); err != nil {
 			panic(err)
 		}
